@@ -17,10 +17,12 @@ HCFGS_VARIETY = [
 ]
 
 
-def store_check(run, mc, suites, level='model_checking'):
+def store_check(run, mc, suites, level='model_checking', extra=None):
     """Generic shape of the PearlStore-based checks."""
     eng = store.StoreEngine(run)
     run.build()
+    if extra:
+        extra(run, eng)
     for m in mc:
         if os.environ.get('VERIF_SKIP_MC'):
             break
@@ -121,6 +123,9 @@ def check_C03(run):
         dict(name='restart-quarantine', consts=dict(Keys='{1}', MaxTs='1'), genlen=5 if q else 6,
              acts=['write', 'delete', 'close_active', 'restart', 'restart_corrupt'],
              restarts_set=store.restarts(gs=(True,), dmgs=('keep',)), nkeys=1, sample=(1, 8) if q else (1, 1)),
+        dict(name='restart-ignore', consts=dict(Keys='{1}', MaxTs='1', IgnoreCorrupted='TRUE'), genlen=5 if q else 6,
+             acts=['write', 'delete', 'close_active', 'restart', 'restart_corrupt'], hcfg_overrides=dict(ignore_corrupted=True),
+             restarts_set=store.restarts(gs=(True,), dmgs=('keep',)), nkeys=1, sample=(1, 8) if q else (1, 1)),
         dict(name='restart-stale', consts=dict(Keys='{1}', MaxTs='2', DeferredFires='FALSE'), genlen=5,
              acts=['write', 'delete', 'close_active', 'restart'], hcfg_overrides=dict(deferred_fires=False),
              restarts_set=store.restarts(dmgs=('keep', 'stale')), nkeys=1, sample=(1, 10) if q else (1, 1)),
@@ -155,6 +160,89 @@ def check_C04(run):
     return store_check(run, mc, suites)
 
 
+WORKER_CFG = ('SPECIFICATION TraceSpec\nCONSTANTS\n NBlobs = 2\n MaxReq = 0\n RearmOnBusy = TRUE\n ResetBeforeProcess = TRUE\n'
+              'POSTCONDITION TraceAccepted\nCHECK_DEADLOCK FALSE\n')
+
+
+def worker_part(run, eng):
+    """The worker loop: PearlWorker model-checked by TLC; the schedules of its counterexamples forced on the
+    real storage (workerck) and every recorded execution of the loop validated against it (TraceWorker)."""
+    q = Q(run)
+    io = pvio.IOEngine(run, eng)
+    base = dict(NBlobs='2', MaxReq='4' if q else '6')
+    for name, consts in [('worker-2', base)] + ([] if q else [('worker-3', dict(NBlobs='3', MaxReq='5'))]):
+        c = dict(consts, RearmOnBusy='TRUE', ResetBeforeProcess='TRUE')
+        r = run.tlc('PearlWorker', store.cfg_text('WSpec', c, ['WTypeOK', 'DeferredDumpsComplete']), name, workers=4, timeout=1800)
+        eng.mc_states += r['distinct']
+        eng.mc_transitions += r['generated']
+        run.log('TLC %s: %d distinct states, ok=%s' % (name, r['distinct'], r['ok']))
+        if not r['ok']:
+            ex = run.tlc_error_excerpt(r)
+            if any('violated' in e for e in r['errors']):
+                run.violation('C13', dict(kind='tlc-counterexample', config=name, text=ex), 'TLC: the worker loop design leaves a requested index dump undone (%s)\n%s' % (name, ex[:2500]))
+            else:
+                print(ex[:3000])
+                raise ToolError('TLC failed in %s' % name)
+    for name, dev in [('worker-found-F19', dict(RearmOnBusy='FALSE', ResetBeforeProcess='TRUE')), ('worker-reset-late', dict(RearmOnBusy='TRUE', ResetBeforeProcess='FALSE'))]:
+        r = run.tlc('PearlWorker', store.cfg_text('WSpec', dict(base, **dev), ['DeferredDumpsComplete']), name, workers=4, timeout=900)
+        if r['ok'] or not any('DeferredDumpsComplete' in e for e in r['errors']):
+            raise ToolError('negative control: PearlWorker with %s was not refuted by TLC' % dev)
+    run.log('negative controls: both deviations of PearlWorker refuted by TLC')
+    # schedules of the counterexamples on the real storage
+    traces = []
+    for sc in ['busy-redefer', 'double-defer']:
+        for rep in range(1 if q else 3):
+            tr = os.path.join(run.work, 'worker-%s-%d.ndjson' % (sc, rep))
+            out = os.path.join(run.work, 'worker-%s-%d.out' % (sc, rep))
+            cmd = [os.path.join(BIN, 'workerck'), '--scenario', sc, '--out', tr, '--min-ms', str(400 + 150 * rep), '--slow-ms', str(700 + 200 * rep)]
+            rc = subprocess.run(cmd, stdout=open(out, 'w'), stderr=open(out + '.err', 'w')).returncode
+            if rc != 0:
+                raise ToolError('workerck failed rc=%s (%s)' % (rc, out))
+            for line in open(out, errors='replace'):
+                if line.startswith('MISMATCH '):
+                    rec = json.loads(line[9:])
+                    run.violation('C13', rec, 'worker schedule %s: %s' % (sc, json.dumps(rec['mismatches'][0])[:300]))
+            traces.append((tr, dict(scenario=sc)))
+            eng.replayed += 1
+    # ordinary executions of the loop: TLC-generated histories with deletions into closed blobs, closes,
+    # background requests and overflows, recorded through the hooks
+    suite = dict(name='worker-hist', consts=dict(Keys='{1, 2}', MaxTs='1', MaxRecs='2'), genlen=4 if q else 5,
+                 acts=['write', 'delete', 'close_active', 'create_active', 'restore_active', 'force_update', 'close_bg', 'create_bg'],
+                 preds=('always', 'ifactive'), suffix=1, sample=(1, 40) if q else (1, 4))
+    r = eng.generate(**suite)
+    hc = [dict(h, max_recs=2, deferred_fires=True, wait=True) for h in HCFGS_VARIETY]
+    recs, mm = io.record(r['out'], hc, 2, 'worker-hist', snapshots=False)
+    os.remove(r['out'])
+    eng.judge(mm)
+    for tr, h in traces + recs:
+        if not os.path.exists(tr) or os.path.getsize(tr) == 0:
+            continue
+        res = io.validate(tr, 'tw-' + os.path.basename(tr).replace('.ndjson', ''), module='TraceWorker', cfg=WORKER_CFG)
+        eng.mc_states += res['states']
+        if not res['ok']:
+            if res['rejected_at'] is None:
+                raise ToolError('TLC failed on worker trace %s' % tr)
+            ctx = io.context(tr, res['rejected_at'], before=30)
+            what = 'event %s is not what the worker loop specification computes: %s' % (res['rejected_at'], json.dumps(res['event'])[:200])
+            run.violation('C13', dict(kind='worker-trace', harness_cfg=h, verdict=what, events=ctx), 'worker trace (%s): %s' % (os.path.basename(tr), what))
+    run.log('worker loop: %d traces validated against PearlWorker' % (len(traces) + len(recs)))
+    # negative control of the binding: a trace whose logged deadline flag is flipped must be rejected
+    if not run.violations and traces:
+        src = traces[0][0]
+        bad = os.path.join(run.work, 'worker-negctl.ndjson')
+        lines = open(src).read().splitlines()
+        idx = [i for i, x in enumerate(lines) if '"wstate"' in x and '"deadline":1' in x.replace(' ', '')]
+        if idx:
+            e = json.loads(lines[idx[len(idx) // 2]])
+            e['deadline'] = 0
+            lines[idx[len(idx) // 2]] = json.dumps(e)
+            open(bad, 'w').write('\n'.join(lines) + '\n')
+            res = io.validate(bad, 'tw-negctl', module='TraceWorker', cfg=WORKER_CFG)
+            if res['ok']:
+                raise ToolError('negative control: a corrupted worker trace was accepted')
+            run.log('negative control: corrupted worker trace rejected')
+
+
 def check_C13(run):
     q = Q(run)
     mc = [dict(name='mc-c13', consts=dict(Keys='{1}', MaxTs='1', Metas='{0}', MaxRecs='2'), max_ops=3 if q else 4, max_blob=3,
@@ -167,7 +255,7 @@ def check_C13(run):
              preds=('always', 'never', 'ifactive'), nkeys=1, suffix=1, hcfg_overrides=dict(max_recs=2),
              sample=(1, 6) if q else (1, 1)),
     ]
-    return store_check(run, mc, suites)
+    return store_check(run, mc, suites, extra=worker_part)
 
 
 def check_C15(run):
@@ -176,6 +264,8 @@ def check_C15(run):
                acts=['write', 'delete', 'close_active', 'create_active', 'restore_active', 'force_update', 'restart'],
                damages=('keep', 'lose')),
           dict(name='mc-c15-quar', consts=dict(Keys='{1}', MaxTs='1', Metas='{0}', MaxRecs='0'), max_ops=2 if q else 3, max_blob=3,
+               acts=['write', 'close_active', 'create_active', 'restart', 'restart_corrupt'], damages=('keep',)),
+          dict(name='mc-c15-ignore', consts=dict(Keys='{1}', MaxTs='1', Metas='{0}', MaxRecs='0', IgnoreCorrupted='TRUE'), max_ops=2 if q else 3, max_blob=3,
                acts=['write', 'close_active', 'create_active', 'restart', 'restart_corrupt'], damages=('keep',))]
     suites = [
         dict(name='counts-2k', consts=dict(Keys='{1, 2}', MaxTs='2'), genlen=4,
@@ -183,6 +273,9 @@ def check_C15(run):
              restarts_set=store.restarts(dmgs=('keep', 'lose')), nkeys=2, sample=(1, 30) if q else (1, 2)),
         dict(name='counts-quarantine', consts=dict(Keys='{1}', MaxTs='1'), genlen=5 if q else 6,
              acts=['write', 'close_active', 'create_active', 'restart', 'restart_corrupt'],
+             restarts_set=store.restarts(gs=(True,), dmgs=('keep',)), nkeys=1, sample=(1, 6) if q else (1, 1)),
+        dict(name='counts-ignore', consts=dict(Keys='{1}', MaxTs='1', IgnoreCorrupted='TRUE'), genlen=5 if q else 6,
+             acts=['write', 'close_active', 'create_active', 'restart', 'restart_corrupt'], hcfg_overrides=dict(ignore_corrupted=True),
              restarts_set=store.restarts(gs=(True,), dmgs=('keep',)), nkeys=1, sample=(1, 6) if q else (1, 1)),
         dict(name='counts-holes', consts=dict(Keys='{1}', MaxTs='1'), genlen=6 if q else 7,
              acts=['write', 'delete', 'close_active', 'restore_active', 'create_active', 'restart'],
@@ -330,6 +423,9 @@ def check_C07(run):
              restarts_set=store.restarts(), nkeys=2, sample=(1, 60) if q else (1, 4)),
         dict(name='harm-quarantine', consts=dict(Keys='{1}', MaxTs='1'), genlen=5 if q else 6,
              acts=['write', 'close_active', 'create_active', 'restart', 'restart_corrupt'],
+             restarts_set=store.restarts(gs=(True,), dmgs=('keep',)), nkeys=1, sample=(1, 12) if q else (1, 1)),
+        dict(name='harm-ignore', consts=dict(Keys='{1}', MaxTs='1', IgnoreCorrupted='TRUE'), genlen=5 if q else 6,
+             acts=['write', 'close_active', 'create_active', 'restart', 'restart_corrupt'], hcfg_overrides=dict(ignore_corrupted=True),
              restarts_set=store.restarts(gs=(True,), dmgs=('keep',)), nkeys=1, sample=(1, 12) if q else (1, 1)),
         dict(name='sim', consts=dict(Keys='{1, 2}', MaxTs='3', Metas='{0, 1}', OffloadLevels='{0, 1}'), genlen=30,
              acts=['write', 'delete', 'restart', 'restart_corrupt'] + LIFE_ALL, preds=('always', 'ifactive'), nkeys=2,
